@@ -828,7 +828,30 @@ class Interp:
         # tuples / lists / symbolic tuples: structural equality
         if _is_seq(a) or _is_seq(b):
             if sym not in ("==", "!="):
-                raise PathAbort("ordering comparison of sequences", ctx.cur_line)
+                # lexicographic order of two integer sequences (Python's tuple / list comparison)
+                def view(x):
+                    if isinstance(x, Arr) and x.ndim == 1:
+                        xs = N.snap(x)
+                        return xs.shape[0], (lambda q: T.tz(xs.fn(q)))
+                    if isinstance(x, (tuple, list)) and all(T.is_scalar(e) for e in x):
+                        items = list(x)
+
+                        def at(q, items=items):
+                            r_ = T.tz(items[-1]) if items else z3.IntVal(0)
+                            for k_ in range(len(items) - 2, -1, -1):
+                                r_ = z3.If(q == k_, T.tz(items[k_]), r_)
+                            return r_
+                        return len(items), at
+                    raise PathAbort("ordering comparison of sequences", ctx.cur_line)
+                (la, fa), (lb, fb) = view(a), view(b)
+                la, lb = T.tz(la), T.tz(lb)
+                k, q = T.fresh_int("lexk"), T.fresh_int("lexq")
+                same_upto = lambda k_: T.ForAll([q], z3.Implies(z3.And(0 <= q, q < k_), fa(q) == fb(q)))
+                strict = {"<": lambda x, y: x < y, "<=": lambda x, y: x < y, ">": lambda x, y: x > y, ">=": lambda x, y: x > y}[sym]
+                first_diff = T.Exists([k], z3.And(0 <= k, k < la, k < lb, same_upto(k), strict(fa(k), fb(k))))
+                prefix = z3.And(same_upto(z3.If(la < lb, la, lb)),
+                                {"<": la < lb, "<=": la <= lb, ">": la > lb, ">=": la >= lb}[sym])
+                return z3.Or(first_diff, prefix)
             r = self.seq_eq(a, b)
             return r if sym == "==" else T.Not(r)
         if isinstance(a, EnumVal) or isinstance(b, EnumVal):
